@@ -613,101 +613,123 @@ def run_rules(res, facts, tier, want=('C02-R19', 'C11-R8')):
     doc, nodes = value_tree()
     w.doc = doc
     ctxs = [nodes[1], nodes[4], nodes[6], nodes[9]] if tier != 'thorough' or r is None else [n for n in nodes if n.kind != 'doc'][:10]
-    found, found11 = {}, {}
-    seen = set()
-    for ex in corpus(tier):
-        if tuple(ex.toks) in seen:
-            continue
-        seen.add(tuple(ex.toks))
-        ptxt = ' '.join(ex.toks)
-        expr = Obj(NS + 'XPathExpression', {'m_opMap': Vec([], 'ops'), 'm_lastOpCodeIndex': 0, 'm_tokenQueue': Vec([], 'tokens'), 'm_currentPosition': 0,
-                                            'm_currentPattern': '', 'm_numberLiteralValues': Vec([])})
-        xp = Obj(NS + 'XPath', {'m_expression': expr, 'm_locator': 0, 'm_inStylesheet': 1})
-        parser = Obj(NS + 'XPathProcessorImpl', {'m_token': '', 'm_tokenChar': 0, 'm_xpath': 0, 'm_constructionContext': 0, 'm_expression': 0, 'm_prefixResolver': 0,
-                                                 'm_requireLiterals': 0, 'm_isMatchPattern': 0, 'm_positionPredicateStack': Vec([]), 'm_namespaces': Vec([]), 'm_locator': 0,
-                                                 'm_allowVariableReferences': 1, 'm_allowKeyFunction': 1})
-        w.calls = 0
-        w.pending = list(ex.toks)
-        try:
-            m = OMachine(w, {}, parser)
-            m.fuel = 30000
-            m.run_body(init, [xp, 'CCTX', ptxt, 'RES', 0, 1, 1], parser)
-        except Reject as x:
-            raise AnalysisBroken('the expression parser rejects "%s" (%s)' % (ptxt, x))
-        except Fault as f:
-            r.violation('compiling ' + ptxt, 'the parser misbehaves: %s' % f, common.file_line(init)); continue
-        except Unsupported as u:
-            raise AnalysisBroken('compilation outside the interpreted subset on "%s": %s' % (ptxt, u))
-        ops = expr.fields['m_opMap']
-        for ctx in ctxs:
-            wantv = ex.fn(Ctx(ctx, 1, 1, doc, nodes))
+    uniq, seen = [], set()
+    for i, ex in enumerate(corpus(tier)):
+        if tuple(ex.toks) not in seen:
+            seen.add(tuple(ex.toks))
+            uniq.append(i)
+    whole = corpus(tier)
+
+    def work(idx):
+        found, found11 = {}, {}
+        cnt = {'r': 0, 'r11': 0}
+        viol = []
+        for i in idx:
+            ex = whole[i]
+            ptxt = ' '.join(ex.toks)
+            expr = Obj(NS + 'XPathExpression', {'m_opMap': Vec([], 'ops'), 'm_lastOpCodeIndex': 0, 'm_tokenQueue': Vec([], 'tokens'), 'm_currentPosition': 0,
+                                                'm_currentPattern': '', 'm_numberLiteralValues': Vec([])})
+            xp = Obj(NS + 'XPath', {'m_expression': expr, 'm_locator': 0, 'm_inStylesheet': 1})
+            parser = Obj(NS + 'XPathProcessorImpl', {'m_token': '', 'm_tokenChar': 0, 'm_xpath': 0, 'm_constructionContext': 0, 'm_expression': 0, 'm_prefixResolver': 0,
+                                                     'm_requireLiterals': 0, 'm_isMatchPattern': 0, 'm_positionPredicateStack': Vec([]), 'm_namespaces': Vec([]), 'm_locator': 0,
+                                                     'm_allowVariableReferences': 1, 'm_allowKeyFunction': 1})
             w.calls = 0
-            w.cnl = [XO('nodeset', [ctx])]
-            w.current = ctx
-            site = '%s from %s' % (ptxt, ctx.name)
+            w.pending = list(ex.toks)
             try:
-                mm = OMachine(w, {}, xp)
-                mm.fuel = 60000
-                got = w.as_xo(mm.run_body(gen, [ctx, It(ops, 2), 'ECTX'], xp))
-                if got is not None and got.kind == 'nodeset':
-                    got = XO('nodeset', list(got.v))
-            except Fault as f:
-                got = 'FAULT: %s' % f
+                m = OMachine(w, {}, parser)
+                m.fuel = 30000
+                m.run_body(init, [xp, 'CCTX', ptxt, 'RES', 0, 1, 1], parser)
             except Reject as x:
-                got = 'ERROR: %s' % x
+                raise AnalysisBroken('the expression parser rejects "%s" (%s)' % (ptxt, x))
+            except Fault as f:
+                viol.append(('compiling ' + ptxt, 'the parser misbehaves: %s' % f, common.file_line(init))); continue
             except Unsupported as u:
-                raise AnalysisBroken('evaluation outside the interpreted subset on %s: %s' % (site, u))
-            if isinstance(got, XO) and same(got, wantv):
-                if r is not None:
-                    r.instances += 1
-            else:
-                if r is None:
-                    continue            # C02-R19's business
-                r.instances += 1
-                key = ex.toks[0] if len(ex.toks) < 3 else ' '.join(t for t in ex.toks if not t.isdigit() and t not in ("'q'", "'1'", "''"))[:40]
-                if key not in found:
-                    found[key] = (site, got, wantv)
-                continue
-            for kind, body in typed.items() if r11 is not None else ():
+                raise AnalysisBroken('compilation outside the interpreted subset on "%s": %s' % (ptxt, u))
+            ops = expr.fields['m_opMap']
+            for ctx in ctxs:
+                wantv = ex.fn(Ctx(ctx, 1, 1, doc, nodes))
                 w.calls = 0
                 w.cnl = [XO('nodeset', [ctx])]
+                w.current = ctx
+                site = '%s from %s' % (ptxt, ctx.name)
                 try:
-                    env = {body['params'][0]['id']: ctx, body['params'][1]['id']: It(ops, 2), body['params'][2]['id']: 'ECTX',
-                           body['params'][3]['id']: {'string': '', 'listener': Sink('sink', {'text': ''})}.get(kind, 0)}
-                    if kind == 'listener':
-                        env[body['params'][4]['id']] = MemFn(None, 'characters')
-                    sub = OMachine(w, env, xp)
-                    sub.fuel = 60000
-                    sub.call(body['body'])
-                    tv = sub.env[body['params'][3]['id']]
-                    if kind == 'listener':
-                        tv = tv.fields['text']
+                    mm = OMachine(w, {}, xp)
+                    mm.fuel = 60000
+                    got = w.as_xo(mm.run_body(gen, [ctx, It(ops, 2), 'ECTX'], xp))
+                    if got is not None and got.kind == 'nodeset':
+                        got = XO('nodeset', list(got.v))
                 except Fault as f:
-                    tv = 'FAULT: %s' % f
+                    got = 'FAULT: %s' % f
                 except Reject as x:
-                    tv = 'ERROR: %s' % x
+                    got = 'ERROR: %s' % x
                 except Unsupported as u:
-                    raise AnalysisBroken('typed evaluation (%s) outside the interpreted subset on %s: %s' % (kind, site, u))
-                if kind == 'boolean':
-                    wv = to_bool(got)
-                    ok = isinstance(tv, (int, bool)) and bool(tv) == wv
-                elif kind in ('string', 'listener'):
-                    wv = to_str(got)
-                    ok = tv == wv
+                    raise AnalysisBroken('evaluation outside the interpreted subset on %s: %s' % (site, u))
+                if isinstance(got, XO) and same(got, wantv):
+                    if r is not None:
+                        cnt['r'] += 1
                 else:
-                    wv = to_num(got)
-                    ok = isinstance(tv, (int, float)) and ((tv != tv and wv != wv) or float(tv) == wv)
-                r11.instances += 1
-                if not ok:
-                    key = (kind, ex.toks[0] if len(ex.toks) < 3 else ' '.join(t for t in ex.toks if not t.isdigit())[:40])
-                    if key not in found11:
-                        found11[key] = (site, tv, wv, got)
+                    if r is None:
+                        continue            # C02-R19's business
+                    cnt['r'] += 1
+                    key = ex.toks[0] if len(ex.toks) < 3 else ' '.join(t for t in ex.toks if not t.isdigit() and t not in ("'q'", "'1'", "''"))[:40]
+                    if key not in found:
+                        found[key] = (site, repr(got), repr(wantv))
+                    continue
+                for kind, body in typed.items() if r11 is not None else ():
+                    w.calls = 0
+                    w.cnl = [XO('nodeset', [ctx])]
+                    try:
+                        env = {body['params'][0]['id']: ctx, body['params'][1]['id']: It(ops, 2), body['params'][2]['id']: 'ECTX',
+                               body['params'][3]['id']: {'string': '', 'listener': Sink('sink', {'text': ''})}.get(kind, 0)}
+                        if kind == 'listener':
+                            env[body['params'][4]['id']] = MemFn(None, 'characters')
+                        sub = OMachine(w, env, xp)
+                        sub.fuel = 60000
+                        sub.call(body['body'])
+                        tv = sub.env[body['params'][3]['id']]
+                        if kind == 'listener':
+                            tv = tv.fields['text']
+                    except Fault as f:
+                        tv = 'FAULT: %s' % f
+                    except Reject as x:
+                        tv = 'ERROR: %s' % x
+                    except Unsupported as u:
+                        raise AnalysisBroken('typed evaluation (%s) outside the interpreted subset on %s: %s' % (kind, site, u))
+                    if kind == 'boolean':
+                        wv = to_bool(got)
+                        ok = isinstance(tv, (int, bool)) and bool(tv) == wv
+                    elif kind in ('string', 'listener'):
+                        wv = to_str(got)
+                        ok = tv == wv
+                    else:
+                        wv = to_num(got)
+                        ok = isinstance(tv, (int, float)) and ((tv != tv and wv != wv) or float(tv) == wv)
+                    cnt['r11'] += 1
+                    if not ok:
+                        key = (kind, ex.toks[0] if len(ex.toks) < 3 else ' '.join(t for t in ex.toks if not t.isdigit())[:40])
+                        if key not in found11:
+                            found11[key] = (site, repr(tv), repr(wv), repr(got))
+        return cnt, found, found11, viol
+    from ..report import fork_map
+    nparts = 8 if tier == 'thorough' else 4
+    found, found11 = {}, {}
+    for cnt, fnd, fnd11, viol in fork_map(work, [uniq[i::nparts] for i in range(nparts)]):
+        if r is not None:
+            r.instances += cnt['r']
+            for site, what, loc in viol:
+                r.violation(site, what, loc)
+        if r11 is not None:
+            r11.instances += cnt['r11']
+        for k2, v in fnd.items():
+            found.setdefault(k2, v)
+        for k2, v in fnd11.items():
+            found11.setdefault(k2, v)
     for key, (site, got, wantv) in sorted(found.items()):
         r.instances -= 1
-        r.violation('expression ' + key, '%s evaluates to %r; XPath 1.0: %r' % (site, got, wantv), common.file_line(gen))
+        r.violation('expression ' + key, '%s evaluates to %s; XPath 1.0: %s' % (site, got, wantv), common.file_line(gen))
     for (kind, key), (site, tv, wv, got) in sorted(found11.items()):
         r11.instances -= 1
-        r11.violation('%s asked for directly: %s' % (kind, key), '%s: the typed entry point yields %r, the generic result %r converts to %r' % (site, tv, got, wv), common.file_line(typed[kind]))
+        r11.violation('%s asked for directly: %s' % (kind, key), '%s: the typed entry point yields %s, the generic result %s converts to %s' % (site, tv, got, wv), common.file_line(typed[kind]))
     for x in (r, r11):
         if x is not None:
             x.note('%d expressions x %d context nodes' % (len(seen), len(ctxs)))
